@@ -62,7 +62,7 @@ void harness (void)
     VH_IN (vh_i32, in_y);
     VH_ASSUME ((sf_i64) in_y <= SF_ROW_MIN (N));
     pixman_fixed_t r = pixman_sample_floor_y (in_y, N);
-    VH_CHECK ("post.floor_y_saturates", r == (pixman_fixed_t) 0x80000000);
+    VH_CHECK ("post.floor_y_saturates", r == -2147483647 - 1);
 #elif VC_CASE == 4
     VH_IN (vh_i32, in_x);
     int s = RENDER_SAMPLES_X (in_x, N);
